@@ -159,3 +159,143 @@ package evaluator
 //@   ensures isnum.jnum: isJNum(v) ==> result1 == decParseOk(jnum(v))
 //@   ensures ok: result2 == (numOk(v) && intOk(v))
 //@   ensures value: result2 ==> result0 == intVal(v)
+
+// ---------------------------------------------------------------------------
+// arithmetic (C05, C14): the decimal path is exactly the decimal128 operation on the exact
+// decimal value of each operand, in argument order, with Inf/NaN trapped as errors
+
+//@ ghost isFlt(v Val) Bool = isF64(v) || isF32(v)
+//@ ghost fval(v Val) F64 = ite(isF64(v), f64(v), f64Of32(f32(v)))
+//@ ghost isTypeErr(e Iface) Bool = isType(e, "*github.com/woodsbury/jmespath/internal/evaluator.InvalidTypeError")
+
+//@ func add
+//@   tags C05 C14 C18
+//@   ensures float.inf: isFlt(x) && isFlt(y) && f64IsInf(f64Add(fval(x), fval(y))) ==> result == nil && err == global("evaluator.ErrInfinity")
+//@   ensures float.nan: isFlt(x) && isFlt(y) && !f64IsInf(f64Add(fval(x), fval(y))) && f64IsNaN(f64Add(fval(x), fval(y))) ==> result == nil && err == global("evaluator.ErrNotANumber")
+//@   ensures float.value: isFlt(x) && isFlt(y) && !f64IsInf(f64Add(fval(x), fval(y))) && !f64IsNaN(f64Add(fval(x), fval(y))) ==> result == mkF64(f64Add(fval(x), fval(y))) && err == nil
+//@   ensures type.x: !(isFlt(x) && isFlt(y)) && !numOk(x) ==> result == nil && isTypeErr(err)
+//@   ensures type.y: !(isFlt(x) && isFlt(y)) && numOk(x) && !numOk(y) ==> result == nil && isTypeErr(err)
+//@   ensures[C05] dec.inf: !(isFlt(x) && isFlt(y)) && numOk(x) && numOk(y) && decIsInf(decAdd(numDec(x), numDec(y))) ==> result == nil && err == global("evaluator.ErrInfinity")
+//@   ensures[C05] dec.nan: !(isFlt(x) && isFlt(y)) && numOk(x) && numOk(y) && !decIsInf(decAdd(numDec(x), numDec(y))) && decIsNaN(decAdd(numDec(x), numDec(y))) ==> result == nil && err == global("evaluator.ErrNotANumber")
+//@   ensures[C05] dec.value: !(isFlt(x) && isFlt(y)) && numOk(x) && numOk(y) && !decIsInf(decAdd(numDec(x), numDec(y))) && !decIsNaN(decAdd(numDec(x), numDec(y))) ==> result == mkDec(decAdd(numDec(x), numDec(y))) && err == nil
+
+//@ func subtract
+//@   tags C05 C14 C18
+//@   ensures float.inf: isFlt(x) && isFlt(y) && f64IsInf(f64Sub(fval(x), fval(y))) ==> result == nil && err == global("evaluator.ErrInfinity")
+//@   ensures float.nan: isFlt(x) && isFlt(y) && !f64IsInf(f64Sub(fval(x), fval(y))) && f64IsNaN(f64Sub(fval(x), fval(y))) ==> result == nil && err == global("evaluator.ErrNotANumber")
+//@   ensures float.value: isFlt(x) && isFlt(y) && !f64IsInf(f64Sub(fval(x), fval(y))) && !f64IsNaN(f64Sub(fval(x), fval(y))) ==> result == mkF64(f64Sub(fval(x), fval(y))) && err == nil
+//@   ensures type.x: !(isFlt(x) && isFlt(y)) && !numOk(x) ==> result == nil && isTypeErr(err)
+//@   ensures type.y: !(isFlt(x) && isFlt(y)) && numOk(x) && !numOk(y) ==> result == nil && isTypeErr(err)
+//@   ensures[C05] dec.inf: !(isFlt(x) && isFlt(y)) && numOk(x) && numOk(y) && decIsInf(decSub(numDec(x), numDec(y))) ==> result == nil && err == global("evaluator.ErrInfinity")
+//@   ensures[C05] dec.nan: !(isFlt(x) && isFlt(y)) && numOk(x) && numOk(y) && !decIsInf(decSub(numDec(x), numDec(y))) && decIsNaN(decSub(numDec(x), numDec(y))) ==> result == nil && err == global("evaluator.ErrNotANumber")
+//@   ensures[C05] dec.value: !(isFlt(x) && isFlt(y)) && numOk(x) && numOk(y) && !decIsInf(decSub(numDec(x), numDec(y))) && !decIsNaN(decSub(numDec(x), numDec(y))) ==> result == mkDec(decSub(numDec(x), numDec(y))) && err == nil
+
+//@ func multiply
+//@   tags C05 C14 C18
+//@   ensures float.inf: isFlt(x) && isFlt(y) && f64IsInf(f64Mul(fval(x), fval(y))) ==> result == nil && err == global("evaluator.ErrInfinity")
+//@   ensures float.nan: isFlt(x) && isFlt(y) && !f64IsInf(f64Mul(fval(x), fval(y))) && f64IsNaN(f64Mul(fval(x), fval(y))) ==> result == nil && err == global("evaluator.ErrNotANumber")
+//@   ensures float.value: isFlt(x) && isFlt(y) && !f64IsInf(f64Mul(fval(x), fval(y))) && !f64IsNaN(f64Mul(fval(x), fval(y))) ==> result == mkF64(f64Mul(fval(x), fval(y))) && err == nil
+//@   ensures type.x: !(isFlt(x) && isFlt(y)) && !numOk(x) ==> result == nil && isTypeErr(err)
+//@   ensures type.y: !(isFlt(x) && isFlt(y)) && numOk(x) && !numOk(y) ==> result == nil && isTypeErr(err)
+//@   ensures[C05] dec.inf: !(isFlt(x) && isFlt(y)) && numOk(x) && numOk(y) && decIsInf(decMul(numDec(x), numDec(y))) ==> result == nil && err == global("evaluator.ErrInfinity")
+//@   ensures[C05] dec.nan: !(isFlt(x) && isFlt(y)) && numOk(x) && numOk(y) && !decIsInf(decMul(numDec(x), numDec(y))) && decIsNaN(decMul(numDec(x), numDec(y))) ==> result == nil && err == global("evaluator.ErrNotANumber")
+//@   ensures[C05] dec.value: !(isFlt(x) && isFlt(y)) && numOk(x) && numOk(y) && !decIsInf(decMul(numDec(x), numDec(y))) && !decIsNaN(decMul(numDec(x), numDec(y))) ==> result == mkDec(decMul(numDec(x), numDec(y))) && err == nil
+
+//@ func divide
+//@   tags C05 C14 C18
+//@   ensures float.inf: isFlt(x) && isFlt(y) && f64IsInf(f64Div(fval(x), fval(y))) ==> result == nil && err == global("evaluator.ErrInfinity")
+//@   ensures float.nan: isFlt(x) && isFlt(y) && !f64IsInf(f64Div(fval(x), fval(y))) && f64IsNaN(f64Div(fval(x), fval(y))) ==> result == nil && err == global("evaluator.ErrNotANumber")
+//@   ensures float.value: isFlt(x) && isFlt(y) && !f64IsInf(f64Div(fval(x), fval(y))) && !f64IsNaN(f64Div(fval(x), fval(y))) ==> result == mkF64(f64Div(fval(x), fval(y))) && err == nil
+//@   ensures type.x: !(isFlt(x) && isFlt(y)) && !numOk(x) ==> result == nil && isTypeErr(err)
+//@   ensures type.y: !(isFlt(x) && isFlt(y)) && numOk(x) && !numOk(y) ==> result == nil && isTypeErr(err)
+//@   ensures[C05] dec.inf: !(isFlt(x) && isFlt(y)) && numOk(x) && numOk(y) && decIsInf(decQuo(numDec(x), numDec(y))) ==> result == nil && err == global("evaluator.ErrInfinity")
+//@   ensures[C05] dec.nan: !(isFlt(x) && isFlt(y)) && numOk(x) && numOk(y) && !decIsInf(decQuo(numDec(x), numDec(y))) && decIsNaN(decQuo(numDec(x), numDec(y))) ==> result == nil && err == global("evaluator.ErrNotANumber")
+//@   ensures[C05] dec.value: !(isFlt(x) && isFlt(y)) && numOk(x) && numOk(y) && !decIsInf(decQuo(numDec(x), numDec(y))) && !decIsNaN(decQuo(numDec(x), numDec(y))) ==> result == mkDec(decQuo(numDec(x), numDec(y))) && err == nil
+
+//@ func integerDivide
+//@   tags C05 C14 C18
+//@   ensures float.inf: isFlt(x) && isFlt(y) && f64IsInf(f64Floor(f64Div(fval(x), fval(y)))) ==> result == nil && err == global("evaluator.ErrInfinity")
+//@   ensures float.nan: isFlt(x) && isFlt(y) && !f64IsInf(f64Floor(f64Div(fval(x), fval(y)))) && f64IsNaN(f64Floor(f64Div(fval(x), fval(y)))) ==> result == nil && err == global("evaluator.ErrNotANumber")
+//@   ensures float.value: isFlt(x) && isFlt(y) && !f64IsInf(f64Floor(f64Div(fval(x), fval(y)))) && !f64IsNaN(f64Floor(f64Div(fval(x), fval(y)))) ==> result == mkF64(f64Floor(f64Div(fval(x), fval(y)))) && err == nil
+//@   ensures type.x: !(isFlt(x) && isFlt(y)) && !numOk(x) ==> result == nil && isTypeErr(err)
+//@   ensures type.y: !(isFlt(x) && isFlt(y)) && numOk(x) && !numOk(y) ==> result == nil && isTypeErr(err)
+//@   ensures[C05] dec.inf: !(isFlt(x) && isFlt(y)) && numOk(x) && numOk(y) && decIsInf(decQuoRemQ(numDec(x), numDec(y))) ==> result == nil && err == global("evaluator.ErrInfinity")
+//@   ensures[C05] dec.nan: !(isFlt(x) && isFlt(y)) && numOk(x) && numOk(y) && !decIsInf(decQuoRemQ(numDec(x), numDec(y))) && decIsNaN(decQuoRemQ(numDec(x), numDec(y))) ==> result == nil && err == global("evaluator.ErrNotANumber")
+//@   ensures[C05] dec.value: !(isFlt(x) && isFlt(y)) && numOk(x) && numOk(y) && !decIsInf(decQuoRemQ(numDec(x), numDec(y))) && !decIsNaN(decQuoRemQ(numDec(x), numDec(y))) ==> result == mkDec(decQuoRemQ(numDec(x), numDec(y))) && err == nil
+
+//@ func modulo
+//@   tags C05 C14 C18
+//@   ensures float.inf: isFlt(x) && isFlt(y) && f64IsInf(f64Mod(fval(x), fval(y))) ==> result == nil && err == global("evaluator.ErrInfinity")
+//@   ensures float.nan: isFlt(x) && isFlt(y) && !f64IsInf(f64Mod(fval(x), fval(y))) && f64IsNaN(f64Mod(fval(x), fval(y))) ==> result == nil && err == global("evaluator.ErrNotANumber")
+//@   ensures float.value: isFlt(x) && isFlt(y) && !f64IsInf(f64Mod(fval(x), fval(y))) && !f64IsNaN(f64Mod(fval(x), fval(y))) ==> result == mkF64(f64Mod(fval(x), fval(y))) && err == nil
+//@   ensures type.x: !(isFlt(x) && isFlt(y)) && !numOk(x) ==> result == nil && isTypeErr(err)
+//@   ensures type.y: !(isFlt(x) && isFlt(y)) && numOk(x) && !numOk(y) ==> result == nil && isTypeErr(err)
+//@   ensures[C05] dec.inf: !(isFlt(x) && isFlt(y)) && numOk(x) && numOk(y) && decIsInf(decQuoRemR(numDec(x), numDec(y))) ==> result == nil && err == global("evaluator.ErrInfinity")
+//@   ensures[C05] dec.nan: !(isFlt(x) && isFlt(y)) && numOk(x) && numOk(y) && !decIsInf(decQuoRemR(numDec(x), numDec(y))) && decIsNaN(decQuoRemR(numDec(x), numDec(y))) ==> result == nil && err == global("evaluator.ErrNotANumber")
+//@   ensures[C05] dec.value: !(isFlt(x) && isFlt(y)) && numOk(x) && numOk(y) && !decIsInf(decQuoRemR(numDec(x), numDec(y))) && !decIsNaN(decQuoRemR(numDec(x), numDec(y))) ==> result == mkDec(decQuoRemR(numDec(x), numDec(y))) && err == nil
+
+//@ func abs
+//@   tags C05 C14 C18
+//@   ensures float: isFlt(v) ==> result == mkF64(f64Abs(fval(v))) && err == nil
+//@   ensures type: !isFlt(v) && !numOk(v) ==> result == nil && isTypeErr(err)
+//@   ensures[C05] dec: !isFlt(v) && numOk(v) ==> result == mkDec(decAbs(numDec(v))) && err == nil
+
+//@ func ceil
+//@   tags C05 C14 C18
+//@   ensures float: isFlt(v) ==> result == mkF64(f64Ceil(fval(v))) && err == nil
+//@   ensures type: !isFlt(v) && !numOk(v) ==> result == nil && isTypeErr(err)
+//@   ensures[C05] dec: !isFlt(v) && numOk(v) ==> result == mkDec(decCeil(numDec(v))) && err == nil
+
+//@ func floor
+//@   tags C05 C14 C18
+//@   ensures float: isFlt(v) ==> result == mkF64(f64Floor(fval(v))) && err == nil
+//@   ensures type: !isFlt(v) && !numOk(v) ==> result == nil && isTypeErr(err)
+//@   ensures[C05] dec: !isFlt(v) && numOk(v) ==> result == mkDec(decFloor(numDec(v))) && err == nil
+
+//@ func less
+//@   tags C05 C14 C01
+//@   ensures nonnumber: !numOk(x) || !numOk(y) ==> result == nil
+//@   ensures[C05 C14 C01] value: numOk(x) && numOk(y) ==> result == mkBool(decCmp(numDec(x), numDec(y)) == 0 - 1)
+
+//@ func lessOrEqual
+//@   tags C05 C14 C01
+//@   ensures nonnumber: !numOk(x) || !numOk(y) ==> result == nil
+//@   ensures[C05 C14 C01] value: numOk(x) && numOk(y) ==> result == mkBool(decCmp(numDec(x), numDec(y)) == 0 - 1 || decCmp(numDec(x), numDec(y)) == 0)
+
+//@ func greater
+//@   tags C05 C14 C01
+//@   ensures nonnumber: !numOk(x) || !numOk(y) ==> result == nil
+//@   ensures[C05 C14 C01] value: numOk(x) && numOk(y) ==> result == mkBool(decCmp(numDec(x), numDec(y)) == 1)
+
+//@ func greaterOrEqual
+//@   tags C05 C14 C01
+//@   ensures nonnumber: !numOk(x) || !numOk(y) ==> result == nil
+//@   ensures[C05 C14 C01] value: numOk(x) && numOk(y) ==> result == mkBool(decCmp(numDec(x), numDec(y)) == 1 || decCmp(numDec(x), numDec(y)) == 0)
+
+// ---------------------------------------------------------------------------
+// equality (C20): specEq is the specification's deep, type-strict equality; the axiom is its
+// definition (one unfolding), `equal` is proved to compute it
+
+//@ ghost specEq(h Heap, x Val, y Val) Bool
+//@ axiom forall h Heap, x Val, y Val :: {specEq(h, x, y)} (x == nil ==> specEq(h, x, y) == (y == nil)) && (isBool(x) ==> specEq(h, x, y) == (isBool(y) && boolv(x) == boolv(y))) && (isStr(x) ==> specEq(h, x, y) == (isStr(y) && str(x) == str(y))) && (numOk(x) ==> specEq(h, x, y) == (numOk(y) && decEqual(numDec(x), numDec(y)))) && (isNum(x) && !numOk(x) ==> !specEq(h, x, y)) && (isOther(x) ==> !specEq(h, x, y))
+//@ axiom forall h Heap, x Val, y Val :: {specEq(h, x, y)} isArr(x) ==> specEq(h, x, y) == (isArr(y) && len(arr(x)) == len(arr(y)) && (forall i Int :: {at(h, arr(x), i)} 0 <= i && i < len(arr(x)) ==> specEq(h, at(h, arr(x), i), at(h, arr(y), i))))
+//@ axiom forall h Heap, x Val, y Val :: {specEq(h, x, y)} isObj(x) ==> specEq(h, x, y) == (isObj(y) && mlen(h, obj(x)) == mlen(h, obj(y)) && (forall k Int :: {mhasKey(h, obj(x), k)} mhasKey(h, obj(x), k) ==> mhasKey(h, obj(y), k) && specEq(h, mgetKey(h, obj(x), k), mgetKey(h, obj(y), k))))
+
+//@ func equal
+//@   tags C20 C14 C05
+//@   ensures spec: result == specEq(heap, x, y)
+//@   loop 1
+//@     invariant isArr(x0) && isArr(y0) && x == arr(x0) && y == arr(y0) && len(x) == len(y)
+//@     invariant forall k Int :: {at(heap, x, k)} 0 <= k && k < iter ==> specEq(heap, at(heap, x, k), at(heap, y, k))
+//@   loop 2
+//@     invariant isObj(x0) && isObj(y0) && x == obj(x0) && y == obj(y0) && mlen(heap, x) == mlen(heap, y)
+//@     invariant forall k Int :: {it_seen[k]} it_seen[k] ==> mhasKey(heap, y, k) && specEq(heap, mgetKey(heap, x, k), mgetKey(heap, y, k))
+
+//@ func contains
+//@   tags C20 C02
+//@   ensures str: isStr(x) ==> result1 == nil && (isStr(y) ==> result0 == (strIndex(key(str(x)), key(str(y))) >= 0)) && (!isStr(y) ==> !result0)
+//@   ensures[C20] arr: isArr(x) ==> result1 == nil && (result0 <==> (exists i Int :: 0 <= i && i < len(arr(x)) && specEq(heap, at(heap, arr(x), i), y)))
+//@   ensures other: !isStr(x) && !isArr(x) ==> !result0 && isTypeErr(result1)
+//@   loop 1
+//@     invariant isArr(x0) && x == arr(x0)
+//@     invariant forall k Int :: {at(heap, x, k)} 0 <= k && k < iter ==> !specEq(heap, at(heap, x, k), y)
